@@ -5,6 +5,7 @@ Built as a `lean_exe` (nothing below imports Mathlib).
 import Py65.Driver.Cpu
 import Py65.Driver.Handle
 import Py65.Driver.MonRun
+import Py65.Driver.Rt
 
 open Py65 Py65.Driver
 
@@ -12,6 +13,7 @@ def handle (line : String) : String :=
   match tokens line with
   | "cpu" :: rest => runCpu rest
   | "run" :: rest => runMonRun rest
+  | "rt" :: rest => Rt.runRt rest          -- one call of one library helper (harness/rtcheck.py)
   | toks => (handleBase toks).getD "bad-op"
 
 def main : IO Unit := do
